@@ -123,8 +123,97 @@ def PreZoomShift (env : Env) : Prop :=
 /-- `get_structuring_elem` with an ndarray `Bc`: the rank of the image and at least one element -/
 def PreStructElem (env : Env) : Prop := (env "A").ndim = (env "Bc").ndim ∧ 0 < (env "Bc").size
 
+/-! ### round 3: argument links, more kernel preconditions -/
+
+def linksOf (w n : String) (i : Nat) : Option (List (String × Link)) :=
+  (Generated.argLinkTable.find? (fun e => e.1 == w && e.2.1 == n && e.2.2.1 == i)).map (·.2.2.2)
+
+def flowsOf (w h n : String) (i : Nat) : Option (List (String × String × Nat)) :=
+  (Generated.checkFlowTable.find? (fun e => e.1 == w && e.2.1 == h && e.2.2.1 == n && e.2.2.2.1 == i)).map (·.2.2.2.2)
+
+/-- `<prefix><param>=<descriptor>`: the environment of the names carrying the prefix (`W.` wrapper, `N.` native) -/
+def envOfArgsP (pre : String) (a : Args) : Env := fun name =>
+  if a.has (pre ++ name) then
+    let d := descOfInts (a.ints (pre ++ name))
+    match a.ints (pre ++ name ++ ".x") with
+    | t :: z :: _ => { d with tnum := t.toNat, nnz := z.toNat }
+    | [t] => { d with tnum := t.toNat }
+    | [] => d
+  else {}
+
+/-- the border mode handed to a filter kernel is one of the six `ExtendMode` values -/
+def modeInRange (d : Desc) : Prop := 0 ≤ d.ival ∧ d.ival ≤ 5
+
+/-- `_convolve.convolve`: image and weights have the same rank; a given output is a C array of the shape of the image -/
+def PreConvolve (env : Env) : Prop :=
+  (env "array").ndim = (env "filter").ndim ∧
+  ((env "output").kind ≠ 0 → (env "output").shape = (env "array").shape ∧ (env "output").isCArray = true)
+
+/-- `_morph.erode` / `_morph.dilate`: structuring element of the rank of the image, output of its shape, one element type -/
+def PreMorph (env : Env) : Prop :=
+  (env "array").ndim = (env "Bc").ndim ∧ (env "output").shape = (env "array").shape ∧
+  canonT (env "Bc").tnum = canonT (env "array").tnum ∧ canonT (env "output").tnum = canonT (env "array").tnum
+
+/-- `_labeled.label`: the array that is labeled in place is an int32 C array; the element has its type -/
+def PreLabel (env : Env) : Prop :=
+  canonT (env "array").tnum = 5 ∧ (env "array").isCArray = true ∧ canonT (env "filter").tnum = canonT (env "array").tnum
+
+/-- `_convolve.rank_filter` (native part): same rank, one element type, C-array output -/
+def PreRankN (env : Env) : Prop :=
+  (env "array").ndim = (env "Bc").ndim ∧ canonT (env "Bc").tnum = canonT (env "array").tnum ∧
+  canonT (env "output").tnum = canonT (env "array").tnum ∧ (env "output").isCArray = true
+
+/-- SURF pyramid parameters (`check_pyramid_parameters`): octaves in [1, 30], at least one interval, a positive step -/
+def PreSurf (env : Env) : Prop :=
+  (env "array").ndim = 2 ∧ 1 ≤ (env "nr_octaves").ival ∧ (env "nr_octaves").ival ≤ 30 ∧ 1 ≤ (env "nr_intervals").ival ∧
+  1 ≤ (env "initial_step_size").ival
+
+/-- spline order accepted by `_check_interpolate` -/
+def PreOrder (env : Env) : Prop := 1 ≤ (env "order").ival ∧ (env "order").ival ≤ 4
+
+/-- wavelet entry points: a matrix (rows of `N1 = shape[1]` columns; odd `N1` is allowed) -/
+def PreWavelet (env : Env) : Prop := (env "array").ndim = 2
+
+/-- `_thin.thin`: Boolean contiguous image and buffer of one shape -/
+def PreThin (env : Env) : Prop :=
+  canonT (env "array").tnum = 0 ∧ canonT (env "buffer").tnum = 0 ∧ (env "array").shape = (env "buffer").shape ∧
+  (env "array").isContig = true ∧ (env "buffer").isContig = true
+
+/-- `_texture.cooccurence`: int32 result -/
+def PreCoocN (env : Env) : Prop := (env "result").tnum = 5
+
+/-- `_lbp.map`: a contiguous 1-D uint32 array (mapped in place, `data[i]`, `i < dim(0)`) -/
+def PreLbp (env : Env) : Prop := (env "array").tnum = 6 ∧ (env "array").ndim = 1 ∧ (env "array").isContig = true
+
+/-- `_zernike.znl`: the three arrays have the element types the raw pointers are cast to -/
+def PreZnl (env : Env) : Prop := (env "Da").tnum = 12 ∧ (env "Aa").tnum = 15 ∧ (env "Pa").tnum = 12
+
+/-- the (n, l) pairs for which `zernike_moments` calls `_zernike.znl`:
+    `for n in range(degree + 1): for l in range(n + 1): if (n - l) % 2 == 0` (`degree + 1 ≤ 0` gives no call) -/
+def znlPairs (degree : Int) : List (Nat × Nat) :=
+  (List.range (degree + 1).toNat).flatMap fun n => ((List.range (n + 1)).filter fun l => (n - l) % 2 == 0).map fun l => (n, l)
+
+/-- the arguments of `fact(·)` and the index into `g_m` (allocated with `(n-l)/2 + 1` entries) in `py_znl`, for one `m` -/
+def znlFactArgs (n l m : Int) : List Int := [n - m, m, (n - 2 * m + l) / 2, (n - 2 * m - l) / 2]
+
 def handle (a : Args) : String :=
   match a.str "kind" with
+  | "links" =>
+    match linksOf (a.str "w") (a.str "n") (a.nat "i") with
+    | none => "verdict=unknown-site at=-1 n=0"
+    | some ls =>
+      let envW := envOfArgsP "W." a
+      let envN := envOfArgsP "N." a
+      match firstUnlinked Generated.lookupTables ls envW envN with
+      | some i => s!"verdict=violated at={i} n={ls.length}"
+      | none => s!"verdict=linked at=-1 n={ls.length} known={(ls.filter fun pl => match pl.2 with | .other _ => false | _ => true).length}"
+  | "flows" =>
+    match flowsOf (a.str "w") (a.str "h") (a.str "n") (a.nat "i") with
+    | none => "verdict=unknown-flow n=0"
+    | some fs =>
+      let envH := envOfArgsP "H." a
+      let envN := envOfArgsP "N." a
+      s!"verdict={if Flows fs envH envN then "flows" else "violated"} n={fs.length}"
   | "guards" =>
     match guardsOf (a.str "fn") with
     | none => "verdict=unknown-fn atom=-1 n=0"
